@@ -421,8 +421,9 @@ def _symbolic_for(interp, s, frame, state, space):
         else:
             goals.extend(_cell_eq_goals(st2.heap[sid], heap_n[sid]))
     assum = st2.all_assumptions()
-    if goals:
-        st.side.append(_SideGoal("loop-step", z3.And(*goals) if len(goals) > 1 else goals[0], assum, where))
+    # one obligation per carried variable / array (a conjunction of several non-linear equalities is needlessly hard)
+    for g in goals:
+        st.side.append(_SideGoal("loop-step", g, assum, where))
     # init check: state(lo) == pre-state
     env_0, heap_0 = state_at(lo)
     goals0 = []
@@ -472,6 +473,7 @@ class _SideGoal:
     def __init__(self, kind, cond, pc, where):
         self.kind, self.cond, self.pc, self.where = kind, cond, pc, where
         self.explicit = True
+        self.opts = {"abstract_nl": True}
 
 
 def _side_infeasible(st2, kind, where):
@@ -583,7 +585,38 @@ def _summarise_array(sid, shape, dt, idx, prev, postv, iz, lo, hi, hv_consts, hv
     # (2) scatter store: post = ite(cond(i, idx), e(i, idx), prev) with cond selecting idx_k == g_k(i) on some axes
     dec = _decompose_store(postv, prev)
     if dec is not None:
-        cond, val = dec   # z3 bool cond(i, idx), value (SV/Cx) not mentioning havoc
+        cond, val = dec   # z3 bool cond(i, idx), value (SV/Cx)
+        # (1b) scatter-add: post = ite(cond(i, idx), prev + inc(i, idx), prev) with inc free of loop-carried state:
+        #      content(k)[idx] = pre[idx] + Σ_{t<k} [cond(t, idx)] inc(t, idx); when cond determines the writer iteration
+        #      t = w(idx) (idx_k == i + c) the sum has at most one non-zero term (Kronecker-delta collapse):
+        #      content(k)[idx] = pre[idx] + [lo <= w(idx) < k and residual] inc(w(idx), idx).
+        #      Either form is only a candidate: it is checked by the loop-init / loop-step obligations like any summary.
+        inc = sv.sub(val, prev)
+        its = [z3.simplify(t) for t in _terms_of(inc)]
+        if any(_contains_any(t, hv_consts, hv_funcs) for t in _terms_of(val)) \
+                and not any(_contains_any(t, hv_consts, hv_funcs) for t in its + [cond]):
+            inc = _subst_val(inc, [])
+            sol = _solve_writer(cond, iz, idz)
+            if sol is not None:
+                w, residual = sol
+
+                def at(k):
+                    def fn(ix, k=k):
+                        pairs = [(a, sv.znum(b)) for a, b in zip(idz, ix)]
+                        wk = z3.simplify(z3.substitute(w, *pairs))
+                        c = z3.And(wk >= sv.znum(lo), wk < sv.znum(k), z3.substitute(residual, *pairs))
+                        v = _subst_val(_subst_val(inc, [(iz, w)]), pairs)
+                        return sv.add(pre_fn(ix), ite(sv.wrap(z3.simplify(c)), v, 0))
+                    return Content("arr", A._memo(fn), meta)
+                return at
+
+            def at(k):
+                def fn(ix, k=k):
+                    pairs = [(a, sv.znum(b)) for a, b in zip(idz, ix)]
+                    return sv.add(pre_fn(ix), Sum(lo, k, lambda t: ite(sv.wrap(z3.substitute(cond, *(pairs + [(iz, sv.znum(t))]))),
+                                                                        lambda: _subst_val(inc, pairs + [(iz, sv.znum(t))]), 0)))
+                return Content("arr", A._memo(fn), meta)
+            return at
         vts = _terms_of(val) + [cond]
         if not any(_contains_any(t, hv_consts, hv_funcs) for t in vts):
             sol = _solve_writer(cond, iz, idz)
@@ -761,6 +794,10 @@ def _rebind_obj(v, st1, st, iz, last):
                   for spec in view.base]
             view = A.View(nb, [_subst_val(d, [(iz, last)]) for d in view.shape])
         return A.Arr(sid, view, v.dtype)
+    if isinstance(v, A.Masked):
+        src, mask = v.src, v.mask
+        return A.Masked(lambda idx: _subst_val(src(idx), [(iz, last)]), _subst_val(v.n, [(iz, last)]),
+                        lambda t: _subst_val(mask(t), [(iz, last)]), tuple(_subst_val(d, [(iz, last)]) for d in v.rest), v.dtype)
     if isinstance(v, tuple):
         return tuple(_rebind_obj(x, st1, st, iz, last) for x in v)
     if sv.is_scalar(norm(v)):
